@@ -758,29 +758,39 @@ func (e *Engine) initIntrinsics() {
 	I["runtime.Gosched"] = noop
 	I["crypto/sha256.Sum256"] = func(e *Engine, a []Value, pos token.Pos, fn *ssa.Function) Value {
 		s := a[0].(*SliceV)
-		if len(s.Alts) == 1 && s.Alts[0].Len.IsConst() && s.Alts[0].Off.IsConst() {
-			al := s.Alts[0]
-			n := int(al.Len.C)
+		var gs []*Term
+		var vs []Value
+		for _, al := range s.Alts {
+			if tb.And(e.G, al.G).IsFalse() {
+				continue
+			}
+			if al.Arr != nil && (!al.Len.IsConst() || !al.Off.IsConst()) {
+				panic(e.unsupported("sha256 of input with symbolic length"))
+			}
+			n := 0
+			if al.Arr != nil {
+				n = int(al.Len.C)
+			}
 			buf := make([]byte, n)
-			allc := true
 			for i := 0; i < n; i++ {
-				c := al.Arr.E[int(al.Off.C)+i].(*Term)
+				c := e.arrCells(al.Arr)[int(al.Off.C)+i].(*Term)
 				if !c.IsConst() {
-					allc = false
-					break
+					panic(e.unsupported("sha256 of symbolic input"))
 				}
 				buf[i] = byte(c.C)
 			}
-			if allc {
-				h := sha256.Sum256(buf)
-				el := make([]Value, 32)
-				for i := range el {
-					el[i] = tb.BVConst(uint64(h[i]), 8)
-				}
-				return &ArrayV{el}
+			h := sha256.Sum256(buf)
+			el := make([]Value, 32)
+			for i := range el {
+				el[i] = tb.BVConst(uint64(h[i]), 8)
 			}
+			gs = append(gs, al.G)
+			vs = append(vs, &ArrayV{el})
 		}
-		panic(e.unsupported("sha256 of symbolic input"))
+		if len(vs) == 0 {
+			return e.zero(fn.Signature.Results().At(0).Type())
+		}
+		return e.mergeMany(gs, vs)
 	}
 
 	// ---- cryptography and peer-ID parsing: uninterpreted, driven by outcome classes the harness registers with
